@@ -109,6 +109,7 @@ void QXmppIq::toXml(QXmlStreamWriter *xmlWriter) const
 {
     xmlWriter->writeStartElement(QSL65("iq"));
 
+    writeOptionalXmlAttribute(xmlWriter, u"xml:lang", lang());
     writeOptionalXmlAttribute(xmlWriter, u"id", id());
     writeOptionalXmlAttribute(xmlWriter, u"to", to());
     writeOptionalXmlAttribute(xmlWriter, u"from", from());
